@@ -170,6 +170,8 @@ def obligations(tier):
         v("stack", "arm::PushByte", "pushes exactly the literal (+1)", T + "PushByte"),
         v("stack", "arm::PushFloat", "pushes one value (+1), nothing else moves", T + "PushFloat"),
         v("stack", "arm::ConstructVariant", "effect 1 - args; the new value has exactly the top `args` values as fields, in stack (= source) order; values below untouched", T + "ConstructVariant"),
+        v("stack", "arm::ConstructArray", "effect 1 - args; the array's elements are exactly the top `args` values in order", T + "ConstructArray"),
+        v("stack", "arm::MakeClosure", "run-time effect 1 - upvars; the closure captures exactly the top `upvars` values in order", T + "MakeClosure"),
         v("stack", "StackFrame::index_from", "frame[start..] is the frame view from start", "vm/src/stack.rs::<StackFrame as Index<RangeFrom<VmIndex>>>::index"),
     ]
     obs += [
